@@ -108,7 +108,7 @@ Example C15_example_run :
             PeerData 0 9 false; Put 0 0; Get 1; Write 1 2 3 true; Flush 1 2; Heal; Put 1 2;
             Get 0; SessLoss; SessCleanup 0; BgPop; Rebuild; Put 0 3; Get 2]%nat in
   let s := run (init false 1) h in
-  (head s, tail s, cur s, nstreams s, held s) = (3, 3, 1%nat, 5%nat, [(2, 4)]%nat) /\
+  (head s, tail s, cur s, nstreams s, held s) = (2, 2, 1%nat, 5%nat, [(2, 4)]%nat) /\
   map (fun x => sstate_code (sst (streams s x))) (seq 0 5) = [1; 1; 1; 1; 0] /\
   table (sessions s 1) = [4%nat].
 Proof. vm_compute. repeat split. Qed.
